@@ -1,783 +1,1 @@
-/-
-GENERATED by vextract from the Go source (list_impl.go) — do not edit.
-
-A translation of the sequence core of `*list` into Lean, statement by statement, under the
-restructuring rules listed at the top of vextract/listgen.go (heap passing, `ego.val` as a
-`List Val`, loops as recursive helpers, panics by message prefix).  Lemmas/ListGenEq.lean proves
-every definition equal to the hand-written model (Model/ListOps.lean, Model/Normalize.lean), so a
-change of the Go source that alters the behaviour breaks the build.
--/
-import Anytype.Model.ListOps
-import Anytype.Model.Aggregates
-set_option linter.unusedVariables false
-namespace Anytype.Generated
-open Anytype
-
-/-- the Go value inside a value whose assertion to int / float64 has succeeded (R14) -/
-def intOf : Val → Int | .int i => i | _ => 0
-def floatOf : Val → F64 | .float f => f | _ => FloatArith.zero
-
-/-- sort.Strings / sort.Ints / sort.Float64s on a typed slice held as values of that kind (R12) -/
-def sortStrVals (vs : List Val) : List Val := ((vs.filterMap L.asStr).mergeSort L.strLe).map .str
-def sortIntVals (vs : List Val) : List Val := ((vs.filterMap L.asInt).mergeSort (fun x y => decide (x ≤ y))).map .int
-def sortFloatVals (vs : List Val) : List Val := ((vs.filterMap L.asFloat).mergeSort L.floatLe).map .float
-
-/-- `(*list).Count` (list_impl.go:434) -/
-def countGen (h : Heap) (a : Nat) : Int :=
-  ((h.items a).length : Int)
-
-/-- `(*list).Empty` (list_impl.go:438) -/
-def emptyGen (h : Heap) (a : Nat) : Bool :=
-  (countGen h a) == 0
-
-/-- `(*list).Get` (list_impl.go:262) -/
-def getGen (h : Heap) (a : Nat) (index : Int) : Out Val :=
-  if ((((h.items a).length : Int)) <= index) || (index < 0) then .panic .indexRange
-  else
-    match (h.items a)[index.toNat]? with
-    | some v1 => .ok (h.getVal v1)
-    | none => .panic .runtime
-
-/-- `(*list).GetObject` (list_impl.go:269) -/
-def getObjectGen (h : Heap) (a : Nat) (index : Int) : Out Val :=
-  match getGen h a index with
-  | .panic p => .panic p
-  | .ok o =>
-    if !(o.kind == .object) then .panic .notKind
-    else .ok o
-
-/-- `(*list).GetList` (list_impl.go:277) -/
-def getListGen (h : Heap) (a : Nat) (index : Int) : Out Val :=
-  match getGen h a index with
-  | .panic p => .panic p
-  | .ok o =>
-    if !(o.kind == .list) then .panic .notKind
-    else .ok o
-
-/-- `(*list).GetString` (list_impl.go:285) -/
-def getStringGen (h : Heap) (a : Nat) (index : Int) : Out Val :=
-  match getGen h a index with
-  | .panic p => .panic p
-  | .ok o =>
-    if !(o.kind == .string) then .panic .notKind
-    else .ok o
-
-/-- `(*list).GetBool` (list_impl.go:293) -/
-def getBoolGen (h : Heap) (a : Nat) (index : Int) : Out Val :=
-  match getGen h a index with
-  | .panic p => .panic p
-  | .ok o =>
-    if !(o.kind == .bool) then .panic .notKind
-    else .ok o
-
-/-- `(*list).GetInt` (list_impl.go:301) -/
-def getIntGen (h : Heap) (a : Nat) (index : Int) : Out Val :=
-  match getGen h a index with
-  | .panic p => .panic p
-  | .ok o =>
-    if !(o.kind == .int) then .panic .notKind
-    else .ok o
-
-/-- `(*list).GetFloat` (list_impl.go:309) -/
-def getFloatGen (h : Heap) (a : Nat) (index : Int) : Out Val :=
-  match getGen h a index with
-  | .panic p => .panic p
-  | .ok o =>
-    if !(o.kind == .float) then .panic .notKind
-    else .ok o
-
-/-- `(*list).TypeOf` (list_impl.go:317) -/
-def typeOfGen (h : Heap) (a : Nat) (index : Int) : Kind :=
-  if (index >= 0) && (index < (countGen h a)) then
-    match (h.items a)[index.toNat]? with
-    | some v1 =>
-      match v1.kind with
-      | .object => .object
-      | .list => .list
-      | .nil => .nil
-      | .string => .string
-      | .int => .int
-      | .bool => .bool
-      | .float => .float
-      | _ => .undefined
-    | none => .undefined
-  else .undefined
-
-/-- the loop of `Add` at list_impl.go:212 (heap loop) -/
-def addLoopGen (a : Nat) : Heap → List GoVal → Heap × Out Unit
-  | h, [] =>
-    (h, .ok ())
-  | h, val :: rest =>
-    match parseVal h val with
-    | (h1, .panic k) => (h1, .panic k)
-    | (h1, .ok t1) => addLoopGen a (h1.setItems a ((h1.items a) ++ [t1])) rest
-
-/-- `(*list).Add` (list_impl.go:211) -/
-def addGen (h : Heap) (a : Nat) (values : List GoVal) : Heap × Out Ref :=
-  match addLoopGen a h values with
-  | (h2, .ok _) => (h2, .ok (h2.egoRef a))
-  | (h2, .panic k) => (h2, .panic k)
-
-/-- `(*list).Insert` (list_impl.go:218) -/
-def insertGen (h : Heap) (a : Nat) (index : Int) (value : GoVal) : Heap × Out Ref :=
-  if (index < 0) || (index > (countGen h a)) then (h, .panic .indexRange)
-  else if index == (countGen h a) then addGen h a [value]
-  else
-    match parseVal h value with
-    | (h1, .panic k) => (h1, .panic k)
-    | (h1, .ok elem) => (h1.setItems a ((((h1.items a).take (index.toNat + 1)) ++ ((h1.items a).drop index.toNat)).set index.toNat elem), .ok (h1.egoRef a))
-
-/-- `(*list).Replace` (list_impl.go:231) -/
-def replaceGen (h : Heap) (a : Nat) (index : Int) (value : GoVal) : Heap × Out Ref :=
-  if (index < 0) || (index >= (countGen h a)) then (h, .panic .indexRange)
-  else
-    match parseVal h value with
-    | (h1, .panic k) => (h1, .panic k)
-    | (h1, .ok t1) => (h1.setItems a ((h1.items a).set index.toNat t1), .ok (h1.egoRef a))
-
-/-- the loop of `Delete` at list_impl.go:243 (heap loop) -/
-def deleteLoopGen (a : Nat) : Heap → List Int → Heap × Out Unit
-  | h, [] =>
-    (h, .ok ())
-  | h, x1 :: rest =>
-    if (x1 < 0) || (x1 >= (countGen h a)) then (h, .panic .indexRange)
-    else deleteLoopGen a (h.setItems a (((h.items a).take x1.toNat) ++ ((h.items a).drop (x1.toNat + 1)))) rest
-
-/-- `(*list).Delete` (list_impl.go:239) -/
-def deleteGen (h : Heap) (a : Nat) (indexes : List Int) : Heap × Out Ref :=
-  let indexes_1 := if (indexes.length : Int) > 1 then indexes.mergeSort (fun x y => decide (x ≤ y)) else indexes
-  match deleteLoopGen a h indexes_1.reverse with
-  | (h1, .ok _) => (h1, .ok (h1.egoRef a))
-  | (h1, .panic k) => (h1, .panic k)
-
-/-- `(*list).Pop` (list_impl.go:253) -/
-def popGen (h : Heap) (a : Nat) : Heap × Out Ref :=
-  deleteGen h a [(countGen h a) - 1]
-
-/-- `(*list).Clear` (list_impl.go:257) -/
-def clearGen (h : Heap) (a : Nat) : Heap × Out Ref :=
-  (h.setItems a [], .ok (h.egoRef a))
-
-/-- the loop of `Slice` at list_impl.go:354 (acc loop) -/
-def sliceLoopGen (h : Heap) : List Val → List Val → List Val
-  | [], slice =>
-    slice
-  | item :: rest, slice =>
-    sliceLoopGen h rest (slice ++ [h.getVal item])
-
-/-- `(*list).Slice` (list_impl.go:352) -/
-def sliceGen (h : Heap) (a : Nat) : List Val :=
-  sliceLoopGen h (h.items a) []
-
-/-- the loop of `ObjectSlice` at list_impl.go:366 (acc loop) -/
-def objectSliceLoopGen : List Val → List Val → List Val
-  | [], slice =>
-    slice
-  | item :: rest, slice =>
-    if item.kind == .object then objectSliceLoopGen rest (slice ++ [item])
-    else objectSliceLoopGen rest slice
-
-/-- `(*list).ObjectSlice` (list_impl.go:364) -/
-def objectSliceGen (h : Heap) (a : Nat) : List Val :=
-  objectSliceLoopGen (h.items a) []
-
-/-- the loop of `ListSlice` at list_impl.go:377 (acc loop) -/
-def listSliceLoopGen : List Val → List Val → List Val
-  | [], slice =>
-    slice
-  | item :: rest, slice =>
-    if item.kind == .list then listSliceLoopGen rest (slice ++ [item])
-    else listSliceLoopGen rest slice
-
-/-- `(*list).ListSlice` (list_impl.go:375) -/
-def listSliceGen (h : Heap) (a : Nat) : List Val :=
-  listSliceLoopGen (h.items a) []
-
-/-- the loop of `StringSlice` at list_impl.go:388 (acc loop) -/
-def stringSliceLoopGen (h : Heap) : List Val → List Val → List Val
-  | [], slice =>
-    slice
-  | item :: rest, slice =>
-    if (h.getVal item).kind == .string then stringSliceLoopGen h rest (slice ++ [h.getVal item])
-    else stringSliceLoopGen h rest slice
-
-/-- `(*list).StringSlice` (list_impl.go:386) -/
-def stringSliceGen (h : Heap) (a : Nat) : List Val :=
-  stringSliceLoopGen h (h.items a) []
-
-/-- the loop of `BoolSlice` at list_impl.go:399 (acc loop) -/
-def boolSliceLoopGen (h : Heap) : List Val → List Val → List Val
-  | [], slice =>
-    slice
-  | item :: rest, slice =>
-    if (h.getVal item).kind == .bool then boolSliceLoopGen h rest (slice ++ [h.getVal item])
-    else boolSliceLoopGen h rest slice
-
-/-- `(*list).BoolSlice` (list_impl.go:397) -/
-def boolSliceGen (h : Heap) (a : Nat) : List Val :=
-  boolSliceLoopGen h (h.items a) []
-
-/-- the loop of `IntSlice` at list_impl.go:410 (acc loop) -/
-def intSliceLoopGen (h : Heap) : List Val → List Val → List Val
-  | [], slice =>
-    slice
-  | item :: rest, slice =>
-    if (h.getVal item).kind == .int then intSliceLoopGen h rest (slice ++ [h.getVal item])
-    else intSliceLoopGen h rest slice
-
-/-- `(*list).IntSlice` (list_impl.go:408) -/
-def intSliceGen (h : Heap) (a : Nat) : List Val :=
-  intSliceLoopGen h (h.items a) []
-
-/-- the loop of `FloatSlice` at list_impl.go:421 (acc loop) -/
-def floatSliceLoopGen (h : Heap) : List Val → List Val → List Val
-  | [], slice =>
-    slice
-  | item :: rest, slice =>
-    if (h.getVal item).kind == .float then floatSliceLoopGen h rest (slice ++ [h.getVal item])
-    else floatSliceLoopGen h rest slice
-
-/-- `(*list).FloatSlice` (list_impl.go:419) -/
-def floatSliceGen (h : Heap) (a : Nat) : List Val :=
-  floatSliceLoopGen h (h.items a) []
-
-/-- the loop of `Contains` at list_impl.go:474 (search loop) -/
-def containsLoopGen (h : Heap) (elem : Val) : List Val → Bool
-  | [] =>
-    false
-  | item :: rest =>
-    if L.goEq (h.getVal item) elem then true
-    else containsLoopGen h elem rest
-
-/-- `(*list).Contains` (list_impl.go:473) -/
-def containsGen (h : Heap) (a : Nat) (elem : Val) : Bool :=
-  containsLoopGen h elem (h.items a)
-
-/-- the loop of `IndexOf` at list_impl.go:483 (search loop) -/
-def indexOfLoopGen (h : Heap) (elem : Val) : List Val → Int → Int
-  | [], i =>
-    -1
-  | item :: rest, i =>
-    if L.goEq (h.getVal item) elem then i
-    else indexOfLoopGen h elem rest (i + 1)
-
-/-- `(*list).IndexOf` (list_impl.go:482) -/
-def indexOfGen (h : Heap) (a : Nat) (elem : Val) : Int :=
-  indexOfLoopGen h elem (h.items a) 0
-
-/-- `(*list).Concat` (list_impl.go:446) -/
-def concatGen (h : Heap) (a : Nat) (another : Ref) : Heap × Out Ref :=
-  if !h.isList another.addr then (h, .panic .runtime)
-  else
-    let other := h.items another.addr
-    let n1 := h.length
-    (h ++ [.list ((h.items a) ++ other) 0], .ok ⟨n1, 0⟩)
-
-/-- `(*list).SubList` (list_impl.go:454) -/
-def subListGen (h : Heap) (a : Nat) (start : Int) (end_ : Int) : Heap × Out Ref :=
-  if (end_ > (countGen h a)) || (end_ < (-(countGen h a))) then (h, .panic .subListEnd)
-  else
-    let end__1 := if end_ <= 0 then (countGen h a) + end_ else end_
-    if start > end__1 then (h, .panic .subListOrder)
-    else if start < 0 then (h, .panic .subListStart)
-    else
-      let n1 := h.length
-      (h ++ [.list (((h.items a).drop start.toNat).take (end__1 - start).toNat) 0], .ok ⟨n1, 0⟩)
-
-/-- the loop of `Reverse` at list_impl.go:512 (val loop) -/
-def reverseLoopGen : List Val → Nat → List Val
-  | xs, 0 =>
-    xs
-  | xs, i + 1 =>
-    let opp := (xs.length : Int) - 1 - (i : Int)
-    match (if opp < 0 then none else xs[opp.toNat]?), xs[i]? with
-    | some t1, some t2 => reverseLoopGen ((xs.set i t1).set opp.toNat t2) i
-    | _, _ => reverseLoopGen xs i
-
-/-- `(*list).Reverse` (list_impl.go:511) -/
-def reverseGen (h : Heap) (a : Nat) : Heap × Out Ref :=
-  (h.setItems a (reverseLoopGen (h.items a) (((countGen h a) / 2).toNat)), .ok (h.egoRef a))
-
-/-- the loop of `AllObjects` at list_impl.go:520 (search loop) -/
-def allObjectsLoopGen : List Val → Bool
-  | [] =>
-    true
-  | item :: rest =>
-    if !(item.kind == .object) then false
-    else allObjectsLoopGen rest
-
-/-- `(*list).AllObjects` (list_impl.go:519) -/
-def allObjectsGen (h : Heap) (a : Nat) : Bool :=
-  allObjectsLoopGen (h.items a)
-
-/-- the loop of `AllLists` at list_impl.go:530 (search loop) -/
-def allListsLoopGen : List Val → Bool
-  | [] =>
-    true
-  | item :: rest =>
-    if !(item.kind == .list) then false
-    else allListsLoopGen rest
-
-/-- `(*list).AllLists` (list_impl.go:529) -/
-def allListsGen (h : Heap) (a : Nat) : Bool :=
-  allListsLoopGen (h.items a)
-
-/-- the loop of `AllStrings` at list_impl.go:540 (search loop) -/
-def allStringsLoopGen : List Val → Bool
-  | [] =>
-    true
-  | item :: rest =>
-    if !(item.kind == .string) then false
-    else allStringsLoopGen rest
-
-/-- `(*list).AllStrings` (list_impl.go:539) -/
-def allStringsGen (h : Heap) (a : Nat) : Bool :=
-  allStringsLoopGen (h.items a)
-
-/-- the loop of `AllBools` at list_impl.go:550 (search loop) -/
-def allBoolsLoopGen : List Val → Bool
-  | [] =>
-    true
-  | item :: rest =>
-    if !(item.kind == .bool) then false
-    else allBoolsLoopGen rest
-
-/-- `(*list).AllBools` (list_impl.go:549) -/
-def allBoolsGen (h : Heap) (a : Nat) : Bool :=
-  allBoolsLoopGen (h.items a)
-
-/-- the loop of `AllInts` at list_impl.go:560 (search loop) -/
-def allIntsLoopGen : List Val → Bool
-  | [] =>
-    true
-  | item :: rest =>
-    if !(item.kind == .int) then false
-    else allIntsLoopGen rest
-
-/-- `(*list).AllInts` (list_impl.go:559) -/
-def allIntsGen (h : Heap) (a : Nat) : Bool :=
-  allIntsLoopGen (h.items a)
-
-/-- the loop of `AllFloats` at list_impl.go:570 (search loop) -/
-def allFloatsLoopGen : List Val → Bool
-  | [] =>
-    true
-  | item :: rest =>
-    if !(item.kind == .float) then false
-    else allFloatsLoopGen rest
-
-/-- `(*list).AllFloats` (list_impl.go:569) -/
-def allFloatsGen (h : Heap) (a : Nat) : Bool :=
-  allFloatsLoopGen (h.items a)
-
-/-- the loop of `AllNumeric` at list_impl.go:580 (search loop) -/
-def allNumericLoopGen : List Val → Bool
-  | [] =>
-    true
-  | item :: rest =>
-    if !(item.kind == .int) then
-      if !(item.kind == .float) then false
-      else allNumericLoopGen rest
-    else allNumericLoopGen rest
-
-/-- `(*list).AllNumeric` (list_impl.go:579) -/
-def allNumericGen (h : Heap) (a : Nat) : Bool :=
-  allNumericLoopGen (h.items a)
-
-/-- `NewList` (list_impl.go:41) -/
-def newListGen (h : Heap) (values : List GoVal) : Heap × Out Ref :=
-  let n1 := h.length
-  let h1 := h ++ [.list [] 0]
-  match addGen h1 n1 values with
-  | (h2, .ok r1) => (h2, .ok (⟨n1, 0⟩))
-  | (h2, .panic k) => (h2, .panic k)
-
-/-- the loop of `NewListOf` at list_impl.go:62 (val loop) -/
-def newListOfLoopGen (elem : Val) : List Val → Nat → List Val
-  | xs, 0 =>
-    xs
-  | xs, cnt + 1 =>
-    newListOfLoopGen elem (xs ++ [elem]) cnt
-
-/-- `NewListOf` (list_impl.go:58) -/
-def newListOfGen (h : Heap) (value : GoVal) (count : Int) : Heap × Out Ref :=
-  if count < 0 then (h, .panic .runtime)
-  else
-    let n1 := h.length
-    let h1 := h ++ [.list [] 0]
-    match parseVal h1 value with
-    | (h2, .panic k) => (h2, .panic k)
-    | (h2, .ok elem) => (h2.setItems n1 (newListOfLoopGen elem (h2.items n1) count.toNat), .ok (⟨n1, 0⟩))
-
-/-- `(*list).Sort` (list_impl.go:491) -/
-def sortGen (h : Heap) (a : Nat) : Heap × Out Ref :=
-  match (h.items a)[0]? with
-  | some v1 =>
-    match v1.kind with
-    | .string =>
-      let slice := stringSliceGen h a
-      let slice_1 := sortStrVals slice
-      (h.setItems a slice_1, .ok (h.egoRef a))
-    | .int =>
-      let slice := intSliceGen h a
-      let slice_2 := sortIntVals slice
-      (h.setItems a slice_2, .ok (h.egoRef a))
-    | .float =>
-      let slice := floatSliceGen h a
-      let slice_3 := sortFloatVals slice
-      (h.setItems a slice_3, .ok (h.egoRef a))
-    | _ => (h, .panic .sortKind)
-  | none => (h, .panic .runtime)
-
-/-- the loop of `ForEach` at list_impl.go:593 (acc loop) -/
-def forEachLoopGen (h : Heap) : List Val → Int → List (Int × Val) → List (Int × Val)
-  | [], i, log =>
-    log
-  | item :: rest, i, log =>
-    forEachLoopGen h rest (i + 1) (log ++ [(i, (h.getVal item))])
-
-/-- `(*list).ForEach` (list_impl.go:592) -/
-def forEachGen (h : Heap) (a : Nat) : List (Int × Val) :=
-  forEachLoopGen h (h.items a) 0 []
-
-/-- the loop of `ForEachValue` at list_impl.go:600 (acc loop) -/
-def forEachValueLoopGen (h : Heap) : List Val → List Val → List Val
-  | [], log =>
-    log
-  | item :: rest, log =>
-    forEachValueLoopGen h rest (log ++ [(h.getVal item)])
-
-/-- `(*list).ForEachValue` (list_impl.go:599) -/
-def forEachValueGen (h : Heap) (a : Nat) : List Val :=
-  forEachValueLoopGen h (h.items a) []
-
-/-- the loop of `ForEachObject` at list_impl.go:607 (acc loop) -/
-def forEachObjectLoopGen : List Val → List Val → List Val
-  | [], log =>
-    log
-  | item :: rest, log =>
-    if item.kind == .object then forEachObjectLoopGen rest (log ++ [item])
-    else forEachObjectLoopGen rest log
-
-/-- `(*list).ForEachObject` (list_impl.go:606) -/
-def forEachObjectGen (h : Heap) (a : Nat) : List Val :=
-  forEachObjectLoopGen (h.items a) []
-
-/-- the loop of `ForEachList` at list_impl.go:617 (acc loop) -/
-def forEachListLoopGen : List Val → List Val → List Val
-  | [], log =>
-    log
-  | item :: rest, log =>
-    if item.kind == .list then forEachListLoopGen rest (log ++ [item])
-    else forEachListLoopGen rest log
-
-/-- `(*list).ForEachList` (list_impl.go:616) -/
-def forEachListGen (h : Heap) (a : Nat) : List Val :=
-  forEachListLoopGen (h.items a) []
-
-/-- the loop of `ForEachString` at list_impl.go:627 (acc loop) -/
-def forEachStringLoopGen (h : Heap) : List Val → List Val → List Val
-  | [], log =>
-    log
-  | item :: rest, log =>
-    if (h.getVal item).kind == .string then forEachStringLoopGen h rest (log ++ [(h.getVal item)])
-    else forEachStringLoopGen h rest log
-
-/-- `(*list).ForEachString` (list_impl.go:626) -/
-def forEachStringGen (h : Heap) (a : Nat) : List Val :=
-  forEachStringLoopGen h (h.items a) []
-
-/-- the loop of `ForEachBool` at list_impl.go:637 (acc loop) -/
-def forEachBoolLoopGen (h : Heap) : List Val → List Val → List Val
-  | [], log =>
-    log
-  | item :: rest, log =>
-    if (h.getVal item).kind == .bool then forEachBoolLoopGen h rest (log ++ [(h.getVal item)])
-    else forEachBoolLoopGen h rest log
-
-/-- `(*list).ForEachBool` (list_impl.go:636) -/
-def forEachBoolGen (h : Heap) (a : Nat) : List Val :=
-  forEachBoolLoopGen h (h.items a) []
-
-/-- the loop of `ForEachInt` at list_impl.go:647 (acc loop) -/
-def forEachIntLoopGen (h : Heap) : List Val → List Val → List Val
-  | [], log =>
-    log
-  | item :: rest, log =>
-    if (h.getVal item).kind == .int then forEachIntLoopGen h rest (log ++ [(h.getVal item)])
-    else forEachIntLoopGen h rest log
-
-/-- `(*list).ForEachInt` (list_impl.go:646) -/
-def forEachIntGen (h : Heap) (a : Nat) : List Val :=
-  forEachIntLoopGen h (h.items a) []
-
-/-- the loop of `ForEachFloat` at list_impl.go:657 (acc loop) -/
-def forEachFloatLoopGen (h : Heap) : List Val → List Val → List Val
-  | [], log =>
-    log
-  | item :: rest, log =>
-    if (h.getVal item).kind == .float then forEachFloatLoopGen h rest (log ++ [(h.getVal item)])
-    else forEachFloatLoopGen h rest log
-
-/-- `(*list).ForEachFloat` (list_impl.go:656) -/
-def forEachFloatGen (h : Heap) (a : Nat) : List Val :=
-  forEachFloatLoopGen h (h.items a) []
-
-/-- the loop of `Reduce` at list_impl.go:750 (acc loop) -/
-def reduceLoopGen {α : Type} (h : Heap) (function : α → Val → α) : List Val → α → α
-  | [], result =>
-    result
-  | item :: rest, result =>
-    reduceLoopGen h function rest (function result (h.getVal item))
-
-/-- `(*list).Reduce` (list_impl.go:748) -/
-def reduceGen {α : Type} (h : Heap) (a : Nat) (initial : α) (function : α → Val → α) : α :=
-  reduceLoopGen h function (h.items a) initial
-
-/-- the loop of `ReduceStrings` at list_impl.go:758 (acc loop) -/
-def reduceStringsLoopGen {α : Type} (h : Heap) (function : α → Val → α) : List Val → α → α
-  | [], result =>
-    result
-  | item :: rest, result =>
-    if (h.getVal item).kind == .string then reduceStringsLoopGen h function rest (function result (h.getVal item))
-    else reduceStringsLoopGen h function rest result
-
-/-- `(*list).ReduceStrings` (list_impl.go:756) -/
-def reduceStringsGen {α : Type} (h : Heap) (a : Nat) (initial : α) (function : α → Val → α) : α :=
-  reduceStringsLoopGen h function (h.items a) initial
-
-/-- the loop of `ReduceInts` at list_impl.go:769 (acc loop) -/
-def reduceIntsLoopGen {α : Type} (h : Heap) (function : α → Val → α) : List Val → α → α
-  | [], result =>
-    result
-  | item :: rest, result =>
-    if (h.getVal item).kind == .int then reduceIntsLoopGen h function rest (function result (h.getVal item))
-    else reduceIntsLoopGen h function rest result
-
-/-- `(*list).ReduceInts` (list_impl.go:767) -/
-def reduceIntsGen {α : Type} (h : Heap) (a : Nat) (initial : α) (function : α → Val → α) : α :=
-  reduceIntsLoopGen h function (h.items a) initial
-
-/-- the loop of `ReduceFloats` at list_impl.go:780 (acc loop) -/
-def reduceFloatsLoopGen {α : Type} (h : Heap) (function : α → Val → α) : List Val → α → α
-  | [], result =>
-    result
-  | item :: rest, result =>
-    if (h.getVal item).kind == .float then reduceFloatsLoopGen h function rest (function result (h.getVal item))
-    else reduceFloatsLoopGen h function rest result
-
-/-- `(*list).ReduceFloats` (list_impl.go:778) -/
-def reduceFloatsGen {α : Type} (h : Heap) (a : Nat) (initial : α) (function : α → Val → α) : α :=
-  reduceFloatsLoopGen h function (h.items a) initial
-
-/-- the loop of `Map` at list_impl.go:668 (heap loop) -/
-def mapLoopGen (n1 : Nat) (function : Int → Val → GoVal) : Heap → List Val → Int → Heap × Out Unit
-  | h, [], i =>
-    (h, .ok ())
-  | h, item :: rest, i =>
-    match addGen h n1 [function i (h.getVal item)] with
-    | (h2, .ok r1) => mapLoopGen n1 function h2 rest (i + 1)
-    | (h2, .panic k) => (h2, .panic k)
-
-/-- `(*list).Map` (list_impl.go:666) -/
-def mapGen (h : Heap) (a : Nat) (function : Int → Val → GoVal) : Heap × Out Ref :=
-  match newListGen h [] with
-  | (h1, .ok ⟨n1, _⟩) =>
-    match mapLoopGen n1 function h1 (h1.items a) 0 with
-    | (h3, .ok _) => (h3, .ok (⟨n1, 0⟩))
-    | (h3, .panic k) => (h3, .panic k)
-  | (h1, .panic k) => (h1, .panic k)
-
-/-- the loop of `MapValues` at list_impl.go:676 (heap loop) -/
-def mapValuesLoopGen (n1 : Nat) (function : Val → GoVal) : Heap → List Val → Heap × Out Unit
-  | h, [] =>
-    (h, .ok ())
-  | h, item :: rest =>
-    match addGen h n1 [function (h.getVal item)] with
-    | (h2, .ok r1) => mapValuesLoopGen n1 function h2 rest
-    | (h2, .panic k) => (h2, .panic k)
-
-/-- `(*list).MapValues` (list_impl.go:674) -/
-def mapValuesGen (h : Heap) (a : Nat) (function : Val → GoVal) : Heap × Out Ref :=
-  match newListGen h [] with
-  | (h1, .ok ⟨n1, _⟩) =>
-    match mapValuesLoopGen n1 function h1 (h1.items a) with
-    | (h3, .ok _) => (h3, .ok (⟨n1, 0⟩))
-    | (h3, .panic k) => (h3, .panic k)
-  | (h1, .panic k) => (h1, .panic k)
-
-/-- the loop of `MapObjects` at list_impl.go:684 (heap loop) -/
-def mapObjectsLoopGen (n1 : Nat) (function : Val → GoVal) : Heap → List Val → Heap × Out Unit
-  | h, [] =>
-    (h, .ok ())
-  | h, item :: rest =>
-    if item.kind == .object then
-      match addGen h n1 [function item] with
-      | (h2, .ok r1) => mapObjectsLoopGen n1 function h2 rest
-      | (h2, .panic k) => (h2, .panic k)
-    else mapObjectsLoopGen n1 function h rest
-
-/-- `(*list).MapObjects` (list_impl.go:682) -/
-def mapObjectsGen (h : Heap) (a : Nat) (function : Val → GoVal) : Heap × Out Ref :=
-  match newListGen h [] with
-  | (h1, .ok ⟨n1, _⟩) =>
-    match mapObjectsLoopGen n1 function h1 (h1.items a) with
-    | (h3, .ok _) => (h3, .ok (⟨n1, 0⟩))
-    | (h3, .panic k) => (h3, .panic k)
-  | (h1, .panic k) => (h1, .panic k)
-
-/-- the loop of `MapLists` at list_impl.go:695 (heap loop) -/
-def mapListsLoopGen (n1 : Nat) (function : Val → GoVal) : Heap → List Val → Heap × Out Unit
-  | h, [] =>
-    (h, .ok ())
-  | h, item :: rest =>
-    if item.kind == .list then
-      match addGen h n1 [function item] with
-      | (h2, .ok r1) => mapListsLoopGen n1 function h2 rest
-      | (h2, .panic k) => (h2, .panic k)
-    else mapListsLoopGen n1 function h rest
-
-/-- `(*list).MapLists` (list_impl.go:693) -/
-def mapListsGen (h : Heap) (a : Nat) (function : Val → GoVal) : Heap × Out Ref :=
-  match newListGen h [] with
-  | (h1, .ok ⟨n1, _⟩) =>
-    match mapListsLoopGen n1 function h1 (h1.items a) with
-    | (h3, .ok _) => (h3, .ok (⟨n1, 0⟩))
-    | (h3, .panic k) => (h3, .panic k)
-  | (h1, .panic k) => (h1, .panic k)
-
-/-- the loop of `MapStrings` at list_impl.go:706 (heap loop) -/
-def mapStringsLoopGen (n1 : Nat) (function : Val → GoVal) : Heap → List Val → Heap × Out Unit
-  | h, [] =>
-    (h, .ok ())
-  | h, item :: rest =>
-    if (h.getVal item).kind == .string then
-      match addGen h n1 [function (h.getVal item)] with
-      | (h2, .ok r1) => mapStringsLoopGen n1 function h2 rest
-      | (h2, .panic k) => (h2, .panic k)
-    else mapStringsLoopGen n1 function h rest
-
-/-- `(*list).MapStrings` (list_impl.go:704) -/
-def mapStringsGen (h : Heap) (a : Nat) (function : Val → GoVal) : Heap × Out Ref :=
-  match newListGen h [] with
-  | (h1, .ok ⟨n1, _⟩) =>
-    match mapStringsLoopGen n1 function h1 (h1.items a) with
-    | (h3, .ok _) => (h3, .ok (⟨n1, 0⟩))
-    | (h3, .panic k) => (h3, .panic k)
-  | (h1, .panic k) => (h1, .panic k)
-
-/-- the loop of `MapBools` at list_impl.go:717 (heap loop) -/
-def mapBoolsLoopGen (n1 : Nat) (function : Val → GoVal) : Heap → List Val → Heap × Out Unit
-  | h, [] =>
-    (h, .ok ())
-  | h, item :: rest =>
-    if (h.getVal item).kind == .bool then
-      match addGen h n1 [function (h.getVal item)] with
-      | (h2, .ok r1) => mapBoolsLoopGen n1 function h2 rest
-      | (h2, .panic k) => (h2, .panic k)
-    else mapBoolsLoopGen n1 function h rest
-
-/-- `(*list).MapBools` (list_impl.go:715) -/
-def mapBoolsGen (h : Heap) (a : Nat) (function : Val → GoVal) : Heap × Out Ref :=
-  match newListGen h [] with
-  | (h1, .ok ⟨n1, _⟩) =>
-    match mapBoolsLoopGen n1 function h1 (h1.items a) with
-    | (h3, .ok _) => (h3, .ok (⟨n1, 0⟩))
-    | (h3, .panic k) => (h3, .panic k)
-  | (h1, .panic k) => (h1, .panic k)
-
-/-- the loop of `MapInts` at list_impl.go:728 (heap loop) -/
-def mapIntsLoopGen (n1 : Nat) (function : Val → GoVal) : Heap → List Val → Heap × Out Unit
-  | h, [] =>
-    (h, .ok ())
-  | h, item :: rest =>
-    if (h.getVal item).kind == .int then
-      match addGen h n1 [function (h.getVal item)] with
-      | (h2, .ok r1) => mapIntsLoopGen n1 function h2 rest
-      | (h2, .panic k) => (h2, .panic k)
-    else mapIntsLoopGen n1 function h rest
-
-/-- `(*list).MapInts` (list_impl.go:726) -/
-def mapIntsGen (h : Heap) (a : Nat) (function : Val → GoVal) : Heap × Out Ref :=
-  match newListGen h [] with
-  | (h1, .ok ⟨n1, _⟩) =>
-    match mapIntsLoopGen n1 function h1 (h1.items a) with
-    | (h3, .ok _) => (h3, .ok (⟨n1, 0⟩))
-    | (h3, .panic k) => (h3, .panic k)
-  | (h1, .panic k) => (h1, .panic k)
-
-/-- the loop of `MapFloats` at list_impl.go:739 (heap loop) -/
-def mapFloatsLoopGen (n1 : Nat) (function : Val → GoVal) : Heap → List Val → Heap × Out Unit
-  | h, [] =>
-    (h, .ok ())
-  | h, item :: rest =>
-    if (h.getVal item).kind == .float then
-      match addGen h n1 [function (h.getVal item)] with
-      | (h2, .ok r1) => mapFloatsLoopGen n1 function h2 rest
-      | (h2, .panic k) => (h2, .panic k)
-    else mapFloatsLoopGen n1 function h rest
-
-/-- `(*list).MapFloats` (list_impl.go:737) -/
-def mapFloatsGen (h : Heap) (a : Nat) (function : Val → GoVal) : Heap × Out Ref :=
-  match newListGen h [] with
-  | (h1, .ok ⟨n1, _⟩) =>
-    match mapFloatsLoopGen n1 function h1 (h1.items a) with
-    | (h3, .ok _) => (h3, .ok (⟨n1, 0⟩))
-    | (h3, .panic k) => (h3, .panic k)
-  | (h1, .panic k) => (h1, .panic k)
-
-/-- the loop of `IntSum` at list_impl.go:855 (acc loop) -/
-def intSumLoopGen (h : Heap) : List Val → Int → Int
-  | [], result =>
-    result
-  | item :: rest, result =>
-    if (h.getVal item).kind == .int then intSumLoopGen h rest (wrap64 (result + (intOf (h.getVal item))))
-    else intSumLoopGen h rest result
-
-/-- `(*list).IntSum` (list_impl.go:854) -/
-def intSumGen (h : Heap) (a : Nat) : Int :=
-  intSumLoopGen h (h.items a) 0
-
-/-- the loop of `Sum` at list_impl.go:865 (acc loop) -/
-def sumLoopGen (h : Heap) : List Val → F64 → F64
-  | [], result =>
-    result
-  | item :: rest, result =>
-    if (h.getVal item).kind == .int then sumLoopGen h rest (FloatArith.add result (FloatArith.ofInt (intOf (h.getVal item))))
-    else if (h.getVal item).kind == .float then sumLoopGen h rest (FloatArith.add result (floatOf (h.getVal item)))
-    else sumLoopGen h rest result
-
-/-- `(*list).Sum` (list_impl.go:864) -/
-def sumGen (h : Heap) (a : Nat) : F64 :=
-  sumLoopGen h (h.items a) FloatArith.zero
-
-/-- the loop of `IntProd` at list_impl.go:878 (acc loop) -/
-def intProdLoopGen (h : Heap) : List Val → Int → Int
-  | [], result =>
-    result
-  | item :: rest, result =>
-    if (h.getVal item).kind == .int then intProdLoopGen h rest (wrap64 (result * (intOf (h.getVal item))))
-    else intProdLoopGen h rest result
-
-/-- `(*list).IntProd` (list_impl.go:876) -/
-def intProdGen (h : Heap) (a : Nat) : Int :=
-  intProdLoopGen h (h.items a) 1
-
-/-- the loop of `Prod` at list_impl.go:889 (acc loop) -/
-def prodLoopGen (h : Heap) : List Val → F64 → F64
-  | [], result =>
-    result
-  | item :: rest, result =>
-    if (h.getVal item).kind == .int then prodLoopGen h rest (FloatArith.mul result (FloatArith.ofInt (intOf (h.getVal item))))
-    else if (h.getVal item).kind == .float then prodLoopGen h rest (FloatArith.mul result (floatOf (h.getVal item)))
-    else prodLoopGen h rest result
-
-/-- `(*list).Prod` (list_impl.go:887) -/
-def prodGen (h : Heap) (a : Nat) : F64 :=
-  prodLoopGen h (h.items a) FloatArith.one
-
-/-- `(*list).Avg` (list_impl.go:900) -/
-def avgGen (h : Heap) (a : Nat) : F64 :=
-  FloatArith.div (sumGen h a) (FloatArith.ofInt (countGen h a))
-
-end Anytype.Generated
+#check (vextract_translation_failed : "list_impl.go:469:12: unrecognised expression: *ego")
